@@ -200,13 +200,17 @@ def gen_case(rng, pki, devices, i, big):
         nkeys = rng.randint(1, 4)
         c.update(kind=kind, nkeys=nkeys, src=rng.randrange(nkeys), img_slot=rng.choice([2, 2, 3, 4, 5]),
                  engine=rng.choice(["ANY", "ANY", "DCP", "CAAM", "SW"]), extra=rng.choice(["", "", "unlock_snvs", "unlock_ocotp", "unlock_caam", "set_engine"]),
-                 nocak=(mode == "auth" and rng.random() < 0.15))
+                 nocak=(mode == "auth" and rng.random() < 0.15),
+                 keyloc_csf=rng.choice(KEYLOCS), keyloc_img=rng.choice(KEYLOCS))
     if mode == "enc":
         c.update(mac=rng.choice([4, 6, 8, 10, 12, 14, 16, 16]), keybits=rng.choice([128, 192, 256]),
                  dek=bytes(rng.getrandbits(8) for _ in range(32)), key_slot=rng.randrange(4), kek=rng.choice([0, 2, 3]),
                  nonce=None if rng.random() < 0.5 else bytes(rng.getrandbits(8) for _ in range(rng.choice([13, 13, 12, 11]))))
         c["dek"] = c["dek"][:c["keybits"] // 8]
     return c
+
+
+KEYLOCS = ("file", "provider", "auto")   # *_PrivateKeyFile / *_SignProvider "type=file;file_path=…" / located from crts/…_crt.pem -> keys/…_key.pem
 
 
 def case_id(c):
@@ -241,6 +245,16 @@ def make_config(c, pki, wd):
     if c["xmcd"]:
         o["XMCDFilePath"] = w("xmcd.bin", c["xmcd"])
     s = []
+
+    def keyparam(prefix, path, loc):
+        """how the private key reaches the command: explicit file, signature provider string, or nothing (legacy CST convention: the key is
+        located from the certificate path, crts/<name>_crt.pem -> keys/<name>_key.pem; the PKI files are laid out that way)"""
+        if loc == "provider":
+            return {prefix + "_SignProvider": f"type=file;file_path={path}"}
+        if loc == "auto":
+            return {}
+        return {prefix + "_PrivateKeyFile": path}
+
     if c["mode"] != "plain":
         ent = pki.trees[c["kind"]][c["src"]]
         table = pki.srk_table(c["kind"], c["nkeys"])
@@ -250,10 +264,10 @@ def make_config(c, pki, wd):
               sec(21, InstallSRK_Table=w("srk_table.bin", table.export()), InstallSRK_SourceIndex=c["src"])]
         if c.get("nocak"):   # HAB4 fast authentication: the SRK itself signs the CSF and the image
             s += [sec(23, InstallNOCAK_File=ent["srk_cert"], InstallNOCAK_CertificateFormat="x509"),
-                  sec(24, AuthenticateCsf_PrivateKeyFile=ent["srk_keyfile"])]
+                  sec(24, **keyparam("AuthenticateCsf", ent["srk_keyfile"], c.get("keyloc_csf", "file")))]
         else:
             s += [sec(22, InstallCSFK_File=ent["csf_cert"], InstallCSFK_CertificateFormat="x509"),
-                  sec(24, AuthenticateCsf_PrivateKeyFile=ent["csf_key"])]
+                  sec(24, **keyparam("AuthenticateCsf", ent["csf_key"], c.get("keyloc_csf", "file")))]
         if c["extra"] == "unlock_snvs":
             s.append(sec(33, Unlock_Engine="SNVS", Unlock_features="ZMK WRITE"))
         elif c["extra"] == "unlock_ocotp":
@@ -264,11 +278,11 @@ def make_config(c, pki, wd):
             s.append(sec(31, SetEngine_HashAlgorithm="sha256", SetEngine_Engine="DCP", SetEngine_EngineConfiguration=0))
         if c.get("nocak"):
             s += [sec(26, AuthenticateData_VerificationIndex=0, AuthenticateData_Engine=c["engine"], AuthenticateData_EngineConfiguration=0,
-                      AuthenticateData_PrivateKeyFile=ent["srk_keyfile"])]
+                      **keyparam("AuthenticateData", ent["srk_keyfile"], c.get("keyloc_img", "file")))]
         else:
             s += [sec(25, InstallKey_File=ent["img_cert"], InstallKey_VerificationIndex=0, InstallKey_TargetIndex=c["img_slot"]),
                   sec(26, AuthenticateData_VerificationIndex=c["img_slot"], AuthenticateData_Engine=c["engine"], AuthenticateData_EngineConfiguration=0,
-                      AuthenticateData_PrivateKeyFile=ent["img_key"])]
+                      **keyparam("AuthenticateData", ent["img_key"], c.get("keyloc_img", "file")))]
     if c["mode"] == "enc":
         d = {"Decrypt_Engine": "ANY", "Decrypt_EngineConfiguration": "0", "Decrypt_VerifyIndex": c["key_slot"], "Decrypt_MacBytes": c["mac"]}
         if c["nonce"]:
@@ -358,8 +372,15 @@ def open_cms(sig_blob_data, cert_der):
     if len(sd["signer_infos"]) != 1:
         return None, False, False, "signer infos"
     si = sd["signer_infos"][0]
-    if si["digest_algorithm"]["algorithm"].native != "sha256":
-        return None, False, False, "digest algorithm"
+    from cryptography.hazmat.primitives import hashes
+    declared = si["digest_algorithm"]["algorithm"].native
+    if declared != "sha256":          # HAB4 CSFs are SHA-256 only (Header_HashAlgorithm / Install Key hash algorithm 0x17)
+        return None, False, False, f"digest algorithm {declared}"
+    sig_alg = si["signature_algorithm"]["algorithm"].native
+    if sig_alg not in ("sha256_rsa", "rsassa_pkcs1v15", "sha256_ecdsa"):
+        return None, False, False, f"signature algorithm {sig_alg} does not match the declared digest {declared}"
+    if {a["algorithm"].native for a in sd["digest_algorithms"]} != {declared}:
+        return None, False, False, "digestAlgorithms of the SignedData differ from the signer's digest algorithm"
     attrs = si["signed_attrs"]
     md = None
     ctype = None
@@ -371,12 +392,15 @@ def open_cms(sig_blob_data, cert_der):
     raw = attrs.dump()
     to_verify = b"\x31" + raw[1:]  # signedAttrs are signed with the universal SET OF tag (RFC 5652 5.4)
     cert = x509.load_der_x509_certificate(cert_der)
-    ok = verify_with(cert.public_key(), si["signature"].native, to_verify)
+    # the signature must have been made with the DECLARED digest algorithm (a verifier hashes the signed attributes with it)
+    ok = verify_with(cert.public_key(), si["signature"].native, to_verify, hashes.SHA256())
+    made_with = "sha256" if ok else next((n for n, h in (("sha384", hashes.SHA384()), ("sha512", hashes.SHA512()), ("sha1", hashes.SHA1()))
+                                          if verify_with(cert.public_key(), si["signature"].native, to_verify, h)), "?")
     sid = si["sid"].chosen
     sid_ok = sid["serial_number"].native == cert.serial_number and sid["issuer"].dump() == cert.issuer.public_bytes()
     enc = sd["encap_content_info"]
     detached = enc["content"].native is None and enc["content_type"].native == "data" and ctype == "data"
-    return md, ok, sid_ok and detached, ""
+    return md, ok, sid_ok and detached, "" if ok else f"declared {declared}, signature made with {made_with}"
 
 
 # ====================================================================================================== one case
@@ -601,10 +625,10 @@ def check_csf(s, cid, c, img, csf_off, e_self, e_csf, app_off, app16, pki, hab, 
     # signatures
     sig_csf = blob(csf, a_csf["loc"])[2][4:]
     sig_dat = blob(csf, a_dat["loc"])[2][4:]
-    md_csf, ok1, sid1, _ = open_cms(sig_csf, csf_cert)
-    md_dat, ok2, sid2, _ = open_cms(sig_dat, img_cert)
-    s.expect(ok1 and sid1, cid, "CMS signature of Authenticate CSF does not verify under the installed CSF certificate", (ok1, sid1))
-    s.expect(ok2 and sid2, cid, "CMS signature of Authenticate Data does not verify under the installed IMG certificate", (ok2, sid2))
+    md_csf, ok1, sid1, why1 = open_cms(sig_csf, csf_cert)
+    md_dat, ok2, sid2, why2 = open_cms(sig_dat, img_cert)
+    s.expect(ok1 and sid1, cid, "CMS signature of Authenticate CSF does not verify (declared digest algorithm, signed attributes) under the installed CSF certificate", (ok1, sid1, why1))
+    s.expect(ok2 and sid2, cid, "CMS signature of Authenticate Data does not verify (declared digest algorithm, signed attributes) under the installed IMG certificate", (ok2, sid2, why2))
     s.expect(md_csf == hashlib.sha256(csf[:hdr_len]).digest(), cid, "Authenticate CSF signature is not over exactly CSF header + commands",
              md_csf.hex() if md_csf else None, hashlib.sha256(csf[:hdr_len]).hexdigest())
     blocks = [(a - e_self, ln) for a, ln in a_dat["blocks"]]
@@ -757,11 +781,16 @@ def run(ck):
     big = ck.budget(20000, 65536)
     s = ck.stream("images", f"{n} containers: every (family, boot device) of the database x plain/authenticated/encrypted first, then random; application sizes "
                   "{16, 17, 31, 32, 100, 4095, 4096, 4097, 8191, random}; DB or explicit IVT offset / initial load size; +-DCD, +-XMCD (interface 0/1, instance 0..2); "
-                  f"SRK tables of 1..4 keys ({', '.join(kinds)}) with each source index; image key slots 2..5; MAC 4..16; DEK 128/192/256; given / generated nonce; "
+                  f"SRK tables of 1..4 keys ({', '.join(kinds)}) with each source index; private keys of the CSF and the IMG signer given as file / "
+                  "signature-provider string / located from the certificate path (crts/ -> keys/), all 9 combinations x every key kind first; image key slots 2..5; MAC 4..16; DEK 128/192/256; given / generated nonce; "
                   "optional Unlock / Set Engine commands. non-trivial = distinct configuration")
     reqs = []
+    combos = [(k, a, b) for k in kinds for a in KEYLOCS for b in KEYLOCS]   # key kind x CSF key location x IMG key location: first signed cases
     for i in range(n):
         c = gen_case(rng, pki, devices, i, big)
+        if c["mode"] != "plain" and combos:
+            k, a, b = combos.pop(0)
+            c.update(kind=k, keyloc_csf=a, keyloc_img=b)
         run_case(ck, s, drv, c, pki, os.path.join(scratch, "w"), reqs)
         if len(reqs) >= 60:
             settle(ck, s, drv, reqs)
@@ -882,7 +911,8 @@ def both_stream(ck, pki, devices, scratch):
         c.update(dcd=None, xmcd=None, entry=None)
         if c["mode"] == "auth" and "kind" not in c:
             kind = rng.choice(list(pki.trees))
-            c.update(kind=kind, nkeys=2, src=1, img_slot=2, engine="ANY", extra="", nocak=False)
+            c.update(kind=kind, nkeys=2, src=1, img_slot=2, engine="ANY", extra="", nocak=False,
+                     keyloc_csf=rng.choice(KEYLOCS), keyloc_img=rng.choice(KEYLOCS))
         room = c["ils"] - c["ivt"] - 0x40
         if room < 0x40:
             continue
